@@ -394,6 +394,67 @@ theorem sortkey_analysis_sound_partial (I : Interp V) (hT : Total I) (hL : Frame
     case X kk j => exact absurd rfl (hX kk j)
     all_goals simpa [leafSem] using this
 
+/-! ## sort-key propagation into joins (LeftDir / RightDir) -/
+
+/-- a side the optimizer declares sorted (direction `d ≠ 0`) is sorted the way the join's own sort
+    of that side would leave it. -/
+def DeclaredSorted (I : Interp V) (key : Expr) (d : Int) (xs : List V) : Prop :=
+  d ≠ 0 → SortedBy (joinSortCmp I key (decide (d < 0))) xs
+
+theorem joinSide_sorted (I : Interp V) (key : Expr) (d : Int) (o : Desc) (xs : List V)
+    (h : DeclaredSorted I key d xs) :
+    joinSide I key d o xs = xs.mergeSort (leOf (joinSortCmp I key o)) := by
+  unfold joinSide
+  split
+  · rename_i ho
+    have hd : d ≠ 0 ∧ decide (d < 0) = o := by
+      simp only [hasOrder, Bool.or_eq_true, Bool.and_eq_true, decide_eq_true_eq, Bool.not_eq_true'] at ho
+      rcases ho with ⟨h1, h2⟩ | ⟨h1, h2⟩
+      · exact ⟨by omega, by simp [h2]; omega⟩
+      · exact ⟨by omega, by simp [h2, h1]⟩
+    have hs := h hd.1
+    rw [hd.2] at hs
+    symm
+    apply List.mergeSort_of_pairwise
+    simpa [SortedBy, leOf] using hs
+  · rfl
+
+/-- Skipping the join's sort of a side that is declared sorted does not change what the merge
+    join reads: for every style — including `right`, where the kernel swaps parents, keys *and*
+    directions (each swap is read from the regenerated `case "right":` clause, so a missing swap
+    makes this proof fail) — the join computes what it computes when it sorts both sides itself in
+    the common order.  The hypotheses speak about the *DAG's* left and right inputs, which is what
+    `propagateSortKeyOp` establishes (`LeftDir` from the left parent's order, `RightDir` from the
+    right parent's).  For a descending declared *source* order with null keys the hypothesis is
+    not what the source delivers (`not_sortkey_sort_sound`): recorded finding
+    C07:join:declared-desc-nulls. -/
+theorem join_skipped_sort_sound (I : Interp V) (J : Desc → List V → List V → List V) (style : String)
+    (L R : List V) (lk rk : Expr) (ld rd : Int)
+    (hL : DeclaredSorted I lk ld L) (hR : DeclaredSorted I rk rd R) :
+    kernelJoin I J style L R lk rk ld rd =
+      (let a := kernelJoinArgs style L R lk rk ld rd
+       let o := joinOrder a.ldir a.rdir
+       J o (a.left.mergeSort (leOf (joinSortCmp I a.lkey o))) (a.right.mergeSort (leOf (joinSortCmp I a.rkey o)))) := by
+  unfold kernelJoin joinNew
+  by_cases hs : (style == "right") = true
+  · have e : kernelJoinArgs style L R lk rk ld rd =
+        ({ left := R, right := L, lkey := rk, rkey := lk, ldir := rd, rdir := ld } : JoinArgs V) := by
+      simp only [kernelJoinArgs, hs, if_true]
+      simp (config := {decide := true}) only [if_true]
+    simp only [e]
+    rw [joinSide_sorted I rk rd _ R hR, joinSide_sorted I lk ld _ L hL]
+  · have e : kernelJoinArgs style L R lk rk ld rd =
+        ({ left := L, right := R, lkey := lk, rkey := rk, ldir := ld, rdir := rd } : JoinArgs V) := by
+      simp only [kernelJoinArgs, hs]; rfl
+    simp only [e]
+    rw [joinSide_sorted I lk ld _ L hL, joinSide_sorted I rk rd _ R hR]
+
+/-- non-vacuity: a sorted left side declared ascending, an undeclared right side. -/
+example : DeclaredSorted witI (.this ["a"]) 1 [1, 2, 3] ∧ DeclaredSorted witI (.this ["b"]) 0 [3, 1] := by
+  refine ⟨fun _ => ?_, fun h => absurd rfl h⟩
+  simp [SortedBy, joinSortCmp, sortCmp, sortCmp.go, witI]
+  decide
+
 /-! ## non-vacuity of the hypotheses -/
 
 /-- an interpretation in which all keys compare equal satisfies the frame laws. -/
